@@ -2,7 +2,8 @@
    model (C10_model, Z mapped to Zarith):
      FIT (rss criterion; stump, hinge, affine, dense / k-best / discrete-step tables): the model's optimum over the
          hypothesis class (proved minimal in Properties_C10) vs the returned score, within 1e-9 * sum r^2; and the exact
-         RSS of the fitted predictor (spec function rss_of) vs the score (PROPFAIL reproduce);
+         RSS of the fitted predictor (spec function rss_of) vs the score (PROPFAIL reproduce); for stump / hinge and every criterion
+         the fitted threshold must be one of the model's mid-point thresholds of the fitted feature (MISMATCH threshold);
      PRED / SPLIT / SCALE: predict, group, scale of the learner model on the parameters the implementation fitted
          (exact for groups and table entries, 1e-12 relative to the summed terms for w * x + b);
      MERGE: the model's merge (incl. the early break) of the serialised learners vs the merged list of the library.
@@ -127,9 +128,26 @@ let magnitude (w : wl) (s : fval list) (pred : q list) : q list =
 
 (* ---- FIT ---------------------------------------------------------------------------------------------------- *)
 let no () = nat_of_int !cur_no
+(* the threshold of a fitted stump / hinge (any criterion) is one of the mid-points the model tries on that feature *)
+let check_threshold tag w =
+  let rec int_of_nat = function O -> 0 | S n -> 1 + int_of_nat n in
+  let test f thr =
+    match Hashtbl.find_opt feats (int_of_nat f) with
+    | Some (FS a) ->
+        Stdlib.incr total;
+        let cands = stump_cands (no ()) !floor_ (scol_of a) in
+        if not (List.exists (fun ((t, _), _) -> qeq_bool t thr) cands) then
+          report "MISMATCH" "threshold" tag (Printf.sprintf "threshold %h is not a mid-point of consecutive distinct values of feature %d: %s" (float_of_q thr) (int_of_nat f) w)
+    | _ -> report "MISMATCH" "fit-params" tag ("the fitted feature is not a scalar feature: " ^ w) in
+  match parse_w w with
+  | Some (WStump (f, thr, _, _)) -> test f thr
+  | Some (WHinge (f, thr, _, _, _)) -> test f thr
+  | _ -> ()
+
 let check_fit id name crit score w =
   let tag = id ^ " " ^ name ^ " " ^ crit in
   Hashtbl.replace learners tag w;
+  if score <> "nofit" && (name = "stump" || name = "hinge") then check_threshold tag w;
   if crit = "rss" then begin
     let model =
       match name with
